@@ -13,6 +13,22 @@ import z3
 from ..harness import Harness
 from ..engine import Query
 
+# FINDINGS
+# ---------------------------------------------------------------------------------------------------------------
+# 1. Scrambler/Descrambler restarted the LFSR when a COM word was merely *offered* (comma_present did not depend on
+#    source.ready): a COM word with data symbols that was stalled for a cycle (valid & ~ready) and then transferred
+#    was scrambled with the initial keystream, while the far-side descrambler (which sees the word once) still used
+#    the running keystream -> round trip broken; the scrambler output also changed while stalled.
+#    Fixed in /repo by commit "fix: restart the scrambler LFSR when a COM word is transferred, not when it is offered"
+#    (lfsr.clear = clear | (comma_present & source.ready)).
+#    Catching assertions (BMC K=8 on the pre-fix tree, all replayed on pysim):
+#      bmc_roundtrip_ffff      assert:round_trip
+#      bmc_scrambler_ffff/7dbd assert:keystream_progress, assert:data_scrambled
+#      bmc_descrambler_ffff    assert:keystream_progress, assert:data_scrambled
+#    (ind_* reported ind_open on the pre-fix tree and hold on the fixed tree.)
+#    Scenario predicate exported by both harnesses: kf "com_word_stalled".
+# ---------------------------------------------------------------------------------------------------------------
+
 PROP = "C31"
 ENCODED = ["luna/gateware/usb/usb3/physical/scrambling.py: ScramblerLFSR (next_value / value equations, clear/advance)",
            "luna/gateware/usb/usb3/physical/scrambling.py: Scrambler / Descrambler (comma restart, hold, per-symbol XOR, pass-through)"]
@@ -284,7 +300,7 @@ def queries(tier):
     validate_reference()
     thorough = tier != "quick"
     K = 12 if thorough else 8
-    cyc = 2000 if thorough else 200
+    cyc = 2000 if thorough else 100
     qs = [
         Query("bmc_lfsr", LfsrHarness, K, split=False, timeout=600,
               desc="ScramblerLFSR: value == 4 keystream bytes of the serial LFSR, clear/advance free every cycle"),
@@ -293,14 +309,16 @@ def queries(tier):
                    "serial shifts, value == 4 keystream bytes"),
         Query("cosim_lfsr", LfsrHarness, 0, kind="cosim", cosim_cycles=cyc),
     ]
-    cfgs = [("scrambler_ffff", "scrambler", 0xFFFF), ("descrambler_ffff", "descrambler", 0xFFFF),
-            ("scrambler_7dbd", "scrambler", 0x7DBD)]
+    cfgs = [("scrambler_ffff", "scrambler", 0xFFFF), ("descrambler_ffff", "descrambler", 0xFFFF)]
+    if thorough:
+        cfgs.append(("scrambler_7dbd", "scrambler", 0x7DBD))      # the Scrambler class default (the layer passes 0xFFFF)
     for tag, kind, init in cfgs:
         f = (lambda kind=kind, init=init: ScramblerHarness(kind, init))
-        qs.append(Query(f"bmc_{tag}", f, K, timeout=600,
+        qs.append(Query(f"bmc_{tag}", f, K, timeout=600, split=False,
                         desc=f"{tag}: clear/enable/hold/valid/ready/data/ctrl free every cycle"))
         qs.append(Query(f"ind_{tag}", f, 1, kind="ind", invariants=_inv_lfsr, timeout=600,
-                        desc=f"{tag}: induction step from an arbitrary LFSR state (ghost = LFSR)"))
+                        desc=f"{tag}: induction step from an arbitrary LFSR state (ghost = LFSR); paired with bmc_{tag} "
+                             "and bmc_lfsr, which are what fails the check if the code breaks"))
         qs.append(Query(f"cosim_{tag}", f, 0, kind="cosim", cosim_cycles=cyc))
     for init in (0xFFFF,) + ((0x7DBD,) if thorough else ()):
         f = (lambda init=init: RoundTripHarness(init))
